@@ -235,6 +235,9 @@ func c12concBody() {
 		sched.Go(func() {
 			defer wg.Done()
 			req := newSimpleRequest(newStringArray("set", "k", "v"))
+			if t != 0 {
+				req = newSimpleRequest(newStringArray("get", "k")) // reads take the candidate-selection path
+			}
 			for _, ki := range p {
 				addr, _ := c.u.chooseHost(keys[ki], req)
 				if addr != strconv.Itoa(refSlot(keys[ki])) {
